@@ -1078,7 +1078,7 @@ func c20Main(o Opts) {
 		rec.Corpus = "corpus"
 		out.Emit(rec)
 	}
-	nrun, njoin := 700, 300
+	nrun, njoin := 1500, 400
 	if o.Tier == "thorough" {
 		nrun, njoin = 12000, 3000
 	}
